@@ -11,7 +11,7 @@ RULE = (
     "cases = Hypothesis-generated IR modules (vf/genir.py, full menu: every instruction kind and operator incl. rol/ror, "
     "~, undef, literals, memcpy, volatile accesses, boundary/negative/huge constants, exponent-form and non-finite floats, "
     "initialised globals incl. symbol references, blocks emitted in non-dominance order) and C front-end modules "
-    "(c_to_ir on translation units assembled from 23 fragments: structs, loops, switch, ternary, function pointers, floats, "
+    "(c_to_ir on translation units assembled from 25 fragments: structs, loops, switch, ternary, function pointers, floats, "
     "bit-fields, statics, strings; optionally optimised at level 2), each with 1-2 generated argument vectors per function. "
     "Oracle: read_module(print_module(m)) succeeds, prints identically, has the same initial memory image, the same "
     "volatile flags, and gives the same observation under vf/irsem.observe_call on every defined call. "
